@@ -6,10 +6,10 @@ CONSTANTS
   MaxNow = 2
   MaxSaves = 2
   Backend = "memory"
-  Net = FALSE
-  IntMax = 1000
+  Net = TRUE
+  IntMax = 1
   GcBatch = 1
   Bug = "none"
 CONSTRAINT Bounded
-INVARIANTS TypeOK LoadCorrect LiveKept HeldSound IndexConsistent
-PROPERTIES MemGcProgress FileGcComplete OnlyExpiredVanish
+INVARIANTS LoadCorrect
+
